@@ -1413,6 +1413,9 @@ func (mp *mapProto) readmapImmutable() {
 					sites[k] = s
 					order = append(order, k)
 				}
+				if m.Op == "mkmap" {
+					continue // a map created by this call: it cannot be a published read map
+				}
 				if !mp.isDirtyMap(p, m) || mp.demotedBefore(p, i) {
 					s.ok = false
 				}
@@ -1830,13 +1833,24 @@ func (mp *mapProto) entryTables() {
 					lastOp = "store"
 				}
 			}
-			for _, cd := range p.Conds {
-				cd.T.Walk(func(x *Term) bool {
-					if x.Op == "loopvar" && isWordTerm(x) && latest == nil {
-						latest = x
+			// a loop variable that carries the word (p := load; for cond(p) { ...; p = load }) is the latest value at
+			// the loop head; it stays the latest unless the path loads again after entering that head
+			lastLoadIdx := -1
+			for i := range p.Events {
+				if isWordOp(&p.Events[i]) == "load" {
+					lastLoadIdx = i
+				}
+			}
+			for _, li := range loops {
+				at, entered := p.LoopAt[li.Hdr]
+				if !entered || lastLoadIdx >= at {
+					continue
+				}
+				for _, lv := range li.LV {
+					if isWordTerm(lv) {
+						latest = lv
 					}
-					return true
-				})
+				}
 			}
 			casOK := false
 			if lastCAS != nil {
@@ -1973,6 +1987,16 @@ func (mp *mapProto) dirtyCopyComplete() {
 		ok, why := true, ""
 		loops := findLoops(ps)
 		sawLoop := false
+		// maps created here that become the dirty map on some path (filled first, assigned afterwards)
+		futureDirty := map[string]bool{}
+		for _, p := range ps {
+			for i := range p.Events {
+				e := &p.Events[i]
+				if e.Kind == "store" && mp.isDirtyAddr(e.Addr) && e.Val.Op == "mkmap" {
+					futureDirty[e.Val.Key()] = true
+				}
+			}
+		}
 		for _, li := range loops {
 			it := c14IterOf(li)
 			if it == nil || it.kind != "map" {
@@ -1985,7 +2009,7 @@ func (mp *mapProto) dirtyCopyComplete() {
 				copied, expunged := false, false
 				for i := p.LoopAt[li.Hdr]; i < len(p.Events); i++ {
 					e := &p.Events[i]
-					if e.Kind == "mapupdate" && mp.isDirtyMap(p, e.Addr) && e.Key != nil && e.Key.Key() == K.Key() && e.Val.Key() == E.Key() {
+					if e.Kind == "mapupdate" && (mp.isDirtyMap(p, e.Addr) || futureDirty[e.Addr.Key()]) && e.Key != nil && e.Key.Key() == K.Key() && e.Val.Key() == E.Key() {
 						copied = true
 					}
 				}
